@@ -1,0 +1,125 @@
+//go:build verif
+
+// Machine-checked specifications for package kravatte (comment-only file; read
+// by /verif/bin/hopvc).
+
+package kravatte
+
+// The 6-round Keccak-p[1600] permutation (assembly) is an uninterpreted function of the 25 lanes of the state
+// (canon25 forgets everything about an SMT array except cells 0..24).
+//@ spec keccakP6(s [25]uint64) [25]uint64
+//@ spec canon25(s [25]uint64) [25]uint64
+//@ axiom C12.canon_ext: forall a [25]uint64, b [25]uint64 :: (forall j int :: 0 <= j && j < 25 ==> a[j] == b[j]) ==> canon25(a) == canon25(b)
+//@ func keccakF1600(a *[25]uint64)
+//@   assume 6-round Keccak-p[1600] (assembly / generic): a function of the state alone
+//@   modifies *a
+//@   ensures *a == keccakP6(canon25(old(*a)))
+//@ func min(a int, b int) (m int)
+//@   inline
+
+// keyStateS(a, o, n): the mask-derivation input key || 01 || 00* as 25 lanes - every key byte is in it
+//@ spec keyStateS(a bytearr, o int, n int) [25]uint64
+//@ axiom C12.key_state: forall a bytearr, o int, n int, j int :: 0 <= j && j < 25 ==>
+//@     keyStateS(a, o, n)[j] == snpLane(a, o, n, j) | (j == n >> 3 ? uint64(1) << (uint64(n & 7) << 3) : 0)
+
+// Mask derivation: k = kr = f(key || 01 || 00*); x = 0; compressing phase with an empty queue.
+// (the key must be non-empty: StateSetBytes reads key[0] before it looks at the length)
+//@ func (kv *Kravatte) RefMaskInitialize(key []byte) (ret int)
+//@   property C12
+//@   requires len(key) > 0
+//@   modifies *kv
+//@   ensures ret == 0 <==> len(key) < 200
+//@   ensures ret == 0 ==> kv.k == keccakP6(canon25(keyStateS(arr(key), off(key), len(key))))
+//@   ensures ret == 0 ==> kv.phase == kravatte.PhaseCompressing && kv.queueOffsetBits == 0
+//@   ensures ret == 0 ==> (forall j int :: 0 <= j && j < 25 ==> kv.kr[j] == kv.k[j])
+//@   ensures ret == 0 ==> (forall j int :: 0 <= j && j < 25 ==> kv.x[j] == 0)
+
+// ---------------------------------------------------------------------------
+// SANSE session layer.  Kra / Vatte (the Farfalle compress / expand phases with their queue) are not specified here:
+// they are assumed to touch only the Kravatte object and the output buffer.
+// ---------------------------------------------------------------------------
+//@ func (kv *Kravatte) Kra(in []byte, inputBitLen int, flags int) (ret int)
+//@   assume Farfalle compression phase (not specified): changes only the Kravatte object
+//@   modifies *kv
+//@ func (kv *Kravatte) Vatte(out []byte, outBits int, flags int) (ret int)
+//@   assume Farfalle expansion phase (not specified): changes only the Kravatte object and out
+//@   modifies *kv, out[:]
+//@ func (s *sanse) addToHistory(data []byte, dataBitLen int, appendix byte, appendixLen int) (ret int)
+//@   property C12
+//@   requires 0 <= dataBitLen && dataBitLen >> 3 <= len(data) && (dataBitLen & 7 != 0 ==> dataBitLen >> 3 < len(data)) && 1 <= appendixLen && appendixLen <= 2
+//@   modifies s.kravatte
+//@ func memxoris(target []byte, source []byte, bitLen int)
+//@   property C12
+//@   requires 0 <= bitLen && bitLen <= 1125899906842624 && (bitLen + 7) >> 3 <= len(target) && (bitLen + 7) >> 3 <= len(source)
+//@   modifies target[:]
+//@   loop 1
+//@     invariant 0 <= i && i <= byteLen && byteLen == bitLen / 8 && bitLen == old(bitLen)
+
+// wrap: on success the session bit e is toggled exactly once (also for an empty plaintext), so that the next message of
+// the session is domain-separated from this one on both sides.
+//@ func (s *sanse) wrap(plaintext []byte, ciphertext []byte, dataBitLen int, ad []byte, adBitLen int, tag []byte) (ret int)
+//@   property C12
+//@   requires dataBitLen == 8 * len(plaintext) && adBitLen == 8 * len(ad) && len(ciphertext) >= len(plaintext) && len(tag) >= 32
+//@   requires ref(plaintext) != ref(ciphertext) && ref(ad) != ref(ciphertext)
+//@   modifies s.kravatte, s.e, ciphertext[:], tag[:]
+//@   ensures ret == 0 ==> s.e == old(s.e) ^ 1
+//@   ensures ret != 0 ==> s.e == old(s.e)
+//@   ensures ret == 0 || ret == 1
+
+// unwrap: success (0) only if the recomputed tag equals the received one (constant-time comparison over all 32 bytes);
+// the session bit is toggled exactly once whenever the tag was computed.
+//@ func (s *sanse) unwrap(ciphertext []byte, plaintext []byte, dataBitLen int, ad []byte, adBitLen int, tag []byte) (ret int)
+//@   property C12
+//@   requires dataBitLen == 8 * len(ciphertext) && adBitLen == 8 * len(ad) && len(plaintext) >= len(ciphertext) && len(tag) == 32
+//@   requires ref(plaintext) != ref(ciphertext) && ref(ad) != ref(plaintext) && ref(tag) != ref(plaintext)
+//@   modifies s.kravatte, s.e, plaintext[:]
+//@   ensures ret == 0 ==> called(subtle.ConstantTimeCompare) && resultof(subtle.ConstantTimeCompare, r) == 1 && same(argof(subtle.ConstantTimeCompare, y), tag) && len(argof(subtle.ConstantTimeCompare, x)) == 32
+//@   ensures called(subtle.ConstantTimeCompare) ==> s.e == old(s.e) ^ 1
+//@   ensures !called(subtle.ConstantTimeCompare) ==> ret != 0 && s.e == old(s.e)
+
+// Seal / Open copy their input first, so the buffers handed to wrap / unwrap never overlap the output even when the
+// caller passes dst = plaintext[:0] (wrap's and unwrap's non-overlap preconditions are proved at these two calls).
+//@ func sliceForAppend(in []byte, n int) (head []byte, tail []byte)
+//@   property C12
+//@   requires 0 <= n && n <= 70368744177664
+//@   ensures len(head) == len(in) + n && len(tail) == n && ref(tail) == ref(head) && off(tail) == off(head) + len(in)
+//@   ensures cap(in) >= len(in) + n ==> ref(head) == ref(in) && off(head) == off(in)
+//@   ensures cap(in) < len(in) + n ==> fresh(head)
+//@ func (s *sanse) Seal(dst []byte, nonce []byte, plaintext []byte, additionalData []byte) (out []byte)
+//@   property C12
+//@   requires ref(additionalData) != ref(dst)
+//@   ensures len(out) == len(dst) + len(plaintext) + 32
+//@ func (s *sanse) Open(dst []byte, nonce []byte, ciphertext []byte, additionalData []byte) (out []byte, err error)
+//@   property C12
+//@   requires ref(additionalData) != ref(dst)
+//@   ensures err == nil ==> len(ciphertext) >= 32 && len(out) == len(dst) + len(ciphertext) - 32 && called(kravatte.sanse.unwrap) && resultof(kravatte.sanse.unwrap, ret) == 0
+//@   ensures len(ciphertext) < 32 ==> err != nil
+
+// ---------------------------------------------------------------------------
+// compress, full blocks: for each 200-byte block B of the message, in order:  x ^= f(kr ^ B);  kr = rollC(kr).
+// EVERY full block is absorbed - in particular the last one when the length is an exact multiple of 200.
+// ---------------------------------------------------------------------------
+//@ spec rollCS(s [25]uint64) [25]uint64
+//@ func rollC(state *[25]uint64)
+//@   assume the Kravatte rolling function for compression (lane arithmetic, not specified): a function of the state alone
+//@   modifies *state
+//@   ensures *state == rollCS(old(*state))
+// (recursion on the number of message bytes still to be compressed: a block is taken while at least 200 remain)
+//@ spec rec compKrS(kr [25]uint64, rem int) [25]uint64 = (rem < 200 ? kr : compKrS(rollCS(kr), rem - 200))
+//@ spec rec compXS(kr [25]uint64, x [25]uint64, a bytearr, o int, rem int) [25]uint64 =
+//@     (rem < 200 ? x : compXS(rollCS(kr), snpXorState(x, keccakP6(canon25(snpAddBytes(kr, rng(a, o, 200))))), a, o + 200, rem - 200))
+//@ spec rec compNS(rem int) int = (rem < 200 ? 0 : 200 + compNS(rem - 200))
+
+//@ func (kv *Kravatte) compress(message []byte, messageBitLen *int, lastFlag int) (n int)
+//@   property C12
+//@   requires lastFlag == 0 && 0 <= *messageBitLen && *messageBitLen <= 8 * len(message) && *messageBitLen <= 35184372088832
+//@   modifies kv.kr, kv.x, *messageBitLen
+//@   ensures n == compNS(old(*messageBitLen) / 8)
+//@   ensures kv.kr == compKrS(old(kv.kr), old(*messageBitLen) / 8)
+//@   ensures kv.x == compXS(old(kv.kr), old(kv.x), arr(message), off(message), old(*messageBitLen) / 8)
+//@   loop 1
+//@     invariant messageByteLen >= 200 && bytesCompressed >= 0 && bytesCompressed + messageByteLen == old(*messageBitLen) / 8 && *messageBitLen == old(*messageBitLen)
+//@     invariant ref(message) == old(ref(message)) && off(message) == old(off(message)) + bytesCompressed && len(message) == old(len(message)) - bytesCompressed && lastFlag == 0
+//@     invariant bytesCompressed + compNS(messageByteLen) == compNS(old(*messageBitLen) / 8)
+//@     invariant compKrS(kv.kr, messageByteLen) == compKrS(old(kv.kr), old(*messageBitLen) / 8)
+//@     invariant compXS(kv.kr, kv.x, arr(message), off(message), messageByteLen) == compXS(old(kv.kr), old(kv.x), arr(message), old(off(message)), old(*messageBitLen) / 8)
